@@ -31,7 +31,8 @@ CLAIMS.update({
     "C16": dict(level="model_checking", engine="gosym", technique=E1_TECH, design_ref="DESIGN.md §5 C16",
         text="One-step induction against ghost reference models: from an arbitrary descriptor table state (0..2 symbolic mask words, symbolic items) Insert returns the lowest free key, "
              "InsertAt/Delete/Lookup act as a map for every int32 key and leave all other keys unchanged. FSContext open/close/renumber against a ghost map from states with 0, 59 or 60 descriptors open (just below / at the 64-entry word boundary of the table's bitmap) plus 0..2 opens and two arbitrary operations on descriptors around the top of the table; fd_readdir two-step protocol. "
-             "Renumbering to descriptors far above the table (a table of pointers of symbolic size is not encodable), read/write/seek content and OS file semantics are outside the claim."),
+             "fd_renumber to ANY target descriptor 6..2^31-1 (table growth by a symbolic amount, sparse-array model) is atomic: on success the file is under the target only, on failure still under the source, never closed, other descriptors unaffected. "
+             "Read/write/seek content and OS file semantics are outside the claim."),
     "C17": dict(level="model_checking", engine="gosym", technique=E1_TECH, design_ref="DESIGN.md §5 C17",
         text="For all 2^80 path_open flag words (dirflags, oflags, fdflags, rights) and all 2^32 Oflag words, what a read-only mount forwards to the wrapped file system contains none of "
              "O_WRONLY|O_RDWR|O_CREAT|O_TRUNC or the open is refused; every mutating FS/File method of ReadFS, readFile and AdaptFS fails without reaching the wrapped object (recording stub; the opened path is a file or a directory, opened with or without O_DIRECTORY). "
@@ -90,7 +91,7 @@ CLAIMS.update({
         text="Each of the 46 exported WASI functions is run with arbitrary argument words on a real store-registered instance whose memory is arbitrary (0..65536 pages, symbolic contents) over a file system stub "
              "that answers arbitrarily within the sys.FS/File contract: a Go run-time panic (index, slice, nil, map, conversion) on any path is a violation, the result is an errno or proc_exit's exit error, "
              "allocations stay within 16x memory + 1 MiB (per-allocation obligation), the preopen stays in the table. Loop counts (iovecs, subscriptions, path bytes, dirents) are <= 1-2 or so large that the range "
-             "cannot fit the memory (including products that wrap 32 bits); the range in between is outside the claim. Memory-region non-interference per function is not yet asserted."),
+             "cannot fit the memory (including products that wrap 32 bits); the range in between is outside the claim. fd_renumber to any target descriptor is atomic (see C16). Memory-region non-interference per function is not yet asserted."),
     "C18": dict(level="model_checking", engine="gosym", technique=E1_TECH + " (self-composition: two contexts, host sources unconstrained)", design_ref="DESIGN.md §5 C18",
         text="Two system contexts built by the real NewModuleConfig().toSysContext(): every host source the default configuration does not replace (time.now, sleep, OS entropy) is an unconstrained symbol or cuts the path in the executor, "
              "so equality of the two contexts' readings is non-interference: wall clock and monotonic clock equal the documented fixed sequence for the first 3 readings, random bytes are equal, no args/environ, "
